@@ -295,6 +295,32 @@ def check(run):
     gen_cases, gen_meta = [], []
     asn_cases, asn_meta = [], []
 
+    # "each declared attribute denotes exactly one dictionary AVP (a grouped one whenever the attribute has a container
+    # class)": the container class must be THAT AVP's container.  Independent knowledge used: the dictionary name of the
+    # AVP and the container's class name agree up to case and punctuation.  The deviations present in the library are
+    # pinned here with their reason; anything else is reported.
+    import re as _re
+    from diameter.message.avp.avp import get_avp_dictionary_entry as _entry
+
+    def _norm(x):
+        return _re.sub(r"[^a-z0-9]", "", x.lower())
+    REUSED = {("GrantedServiceUnit", "Requested-Service-Unit"),   # same ABNF, one class serves both (RFC 8506 8.18 / 8.17)
+              ("IsupCause", "ISUP-Release-Cause")}                # code 3416 carries both names (older 3GPP releases)
+    for cname, info in sorted(cx.defs.items()):
+        for d in info["defs"]:
+            attr, code, vendor, _req, _m, tc = d
+            if not tc:
+                continue
+            ent = _entry(code, vendor)
+            run.count(1, [("container-of", cname, attr)])
+            if ent is None:
+                continue        # reported by the table obligations
+            if _norm(tc) != _norm(ent["name"]) and (tc, ent["name"]) not in REUSED:
+                run.violation("container-is-the-avps", {"class": cname, "attribute": attr, "avp": [code, vendor, ent["name"]],
+                                                        "container_class": tc}, tc, ent["name"],
+                              what=f"{cname}.{attr} pairs the container class {tc} with the AVP {ent['name']} ({code}/{vendor}): "
+                                   f"the attribute does not denote its own grouped AVP")
+
     def one(cname, mode, only=None, depth=2):
         info = cx.defs[cname]
         cls, is_msg = cx.cls[cname]
